@@ -307,6 +307,15 @@ func (e *c12Env) apply(d *starlark.Dict, s *starlark.Set, op []int) (res c12Res,
 			ks = append(ks, keyID(it[0]))
 			vs = append(vs, intOf(it[1]))
 		}
+		// the derived collection is a collection of its own: emptying it must succeed and must not be seen through
+		// either operand (the next observation of the receiver compares it with the model)
+		ddLen := dd.(*starlark.Dict).Len()
+		if err := u.(*starlark.Dict).Clear(); err != nil {
+			return fail(), fmt.Errorf("clearing the derived dict: %v", err)
+		}
+		if dd.(*starlark.Dict).Len() != ddLen {
+			return fail(), fmt.Errorf("clearing d | e changed e")
+		}
 		return okRes(ks, vs), nil
 	case 11: // add
 		if star {
@@ -395,7 +404,16 @@ func (e *c12Env) algebra(s *starlark.Set, op []int) (c12Res, error) {
 		if b, ok := v.(starlark.Bool); ok {
 			return okRes([]int{b2i(bool(b))}, nil)
 		}
-		return okRes(iterKeys(v), nil)
+		r := okRes(iterKeys(v), nil)
+		// (see op 9: a derived set is a collection of its own)
+		if ds, ok := v.(*starlark.Set); ok && ds != s {
+			if err := ds.Clear(); err != nil {
+				panic(fmt.Sprintf("clearing the derived set: %v", err))
+			}
+		} else if ok {
+			panic("the derived set IS the receiver")
+		}
+		return r
 	}
 	if e.route == "star" {
 		// the operand of the method form is a list, a tuple or (without repeated keys) a dict iterated by its keys
